@@ -49,7 +49,7 @@ Envs ==
           seekable |-> FALSE, callback |-> TRUE, crcStored |-> TRUE] : F \in Files, d \in 1 .. 6, ef \in {"benign", "decomp", "content"}, ei \in Bools}
 
 EnvOK(e) ==
-  /\ e.cut <= FLen(e.F) /\ e.faultAt < FLen(e.F)
+  /\ e.cut <= FLen(e.F) /\ e.faultAt <= FLen(e.F)
   /\ (Mode = "flip" => e.damaged \in ChunkIdxs(e.F) /\ (e.F[e.damaged].comp = "none" => e.effect = "content"))
 
 Init == env \in {e \in Envs : EnvOK(e)} /\ s = Start(env)
